@@ -266,8 +266,8 @@ def rule_r4(ctx: Ctx, g: CallGraph) -> None:
 def run(ctx: Ctx) -> None:
     g = CallGraph(ctx.repo)
     ctx.analysed["callgraph"] = g.stats()
-    rule_r1(ctx, g)
-    rule_r2(ctx, g)
-    rule_r3(ctx)
-    rule_r4(ctx, g)
+    ctx.attempt(rule_r1, ctx, g)
+    ctx.attempt(rule_r2, ctx, g)
+    ctx.attempt(rule_r3, ctx)
+    ctx.attempt(rule_r4, ctx, g)
     ctx.assume("file names in lookup directories are inspected when the directory is listed (allowed by the property)")
